@@ -343,20 +343,21 @@ def task_rt_gen(ctx):
     if ctx.shard == 0:
         inners = ['DEF 1 { OP_TRUE }', 'IF { DEF 1 { OP_TRUE } }', 'LOOP { OP_FALSE }', 'TRY { OP_TRUE } EXCEPT { OP_FALSE }',
                   'IF { OP_DUP } ELSE { }', 'OP_PUSH x0102']
-        outers = ['%s', 'DEF 0 { %s }', 'IF { %s }', 'IF { } ELSE { %s }', 'TRY { %s } EXCEPT { }', 'LOOP { %s }', 'DEF 0 { IF { %s } }']
+        outers = ['%s', 'DEF 0 { %s }', 'IF { %s }', 'IF { } ELSE { %s }', 'TRY { %s } EXCEPT { }', 'LOOP { %s }', 'DEF 0 { IF { %s } }',
+                  'DEF 0 { IF ( %s OP_TRUE ) { OP_FALSE } }']          # a hoisted condition is emitted in front of the IF, inside the DEF body
         for inner in inners:
             for outer in outers:
-                src = '!= m [ ] { %s } ' % inner + outer % '!m [ ]'
-                k, b = _try_compile(src)
-                if k != 'ok':
-                    ctx.count('rt-macro:compiler-rejected')
-                    continue
-                fails = check_rt_bytes(b)
-                ctx.case(b, True)
-                ctx.count('rt:' + ('ok' if not fails else 'FAIL'))
-                ctx.count('rt-macro:compiled')
-                for sig, det in fails:
-                    ctx.fail('rtsrc', sig, {'check': 'rtsrc', 'src': src}, det)
+                for src in ('!= m [ ] { %s } ' % inner + outer % '!m [ ]', outer % inner):
+                    k, b = _try_compile(src)
+                    if k != 'ok':
+                        ctx.count('rt-macro:compiler-rejected')
+                        continue
+                    fails = check_rt_bytes(b)
+                    ctx.case(b, True)
+                    ctx.count('rt:' + ('ok' if not fails else 'FAIL'))
+                    ctx.count('rt-macro:compiled')
+                    for sig, det in fails:
+                        ctx.fail('rtsrc', sig, {'check': 'rtsrc', 'src': src}, det)
     # operand sizes on both sides of 2^7, 2^8, 2^15, 2^16 for pushes and block bodies
     if ctx.shard == 0:
         for ln in (127, 128, 129, 255, 256, 257, 32767, 32768, 32769, 65535):
